@@ -5,18 +5,23 @@
 (* Used as invariants by LsmTree and evaluated on recorded real states by  *)
 (* TraceLsm.                                                               *)
 (***************************************************************************)
-EXTENDS LsmOps, LsmAbstract
+EXTENDS LsmOps, LsmAbstract, KnownFindings
 
 ReadPointsOf(st) == {Top, st.vis} \cup st.snaps
 
 \* C01 / C02 / C13: point reads equal the ordered-map oracle at the newest snapshot and
 \* at every held snapshot (a "PANIC" read never equals an oracle value)
 PReadsRefine(st, a, keys) ==
-    \A S \in ReadPointsOf(st) : \A k \in keys : ReadAt(st, k, S) = Oracle(a, k, S)
+    \A S \in ReadPointsOf(st) : \A k \in keys :
+        Defined(a, k, S) => ReadAt(st, k, S) = Oracle(a, k, S)
 
 \* C03 (full range): scans equal the oracle's scan
+OnlyDefined(sq, a, S) == SelectSeq(sq, LAMBDA p : Defined(a, p[1], S))
+
 PScansRefine(st, a) ==
-    \A S \in ReadPointsOf(st) : ScanAt(st, S, FullBounds) = OracleScan(a, S, FullBounds)
+    \A S \in ReadPointsOf(st) :
+        LET r == ScanAt(st, S, FullBounds) IN
+        OnlyDefined(r, a, S) = OnlyDefined(OracleScan(a, S, FullBounds), a, S)
 
 \* C07: structure of a version
 RunSound(run, T) ==
@@ -49,8 +54,9 @@ PNoInvention(st, a) == StoredEntries(st) \subseteq Durable(a)
 \* C04: the newest durable record of a live key is still stored
 PDurableKept(st, a, keys) ==
     \A k \in keys :
-        LET r == NewestIn(Durable(a), k, Top)
-        IN r # None /\ ~IsTomb(r) => r \in StoredEntries(st)
+        LET r == NewestIn(LiveDurable(a), k, Top)
+        IN r # None /\ ~IsTomb(r) /\ (\A p \in a.taint : p[1] = k => r.s > p[2])
+              => r \in StoredEntries(st)
 
 \* C18: marks against Layer A: the persisted mark never exceeds the largest flushed
 \* seqno; the memtable mark is the largest unflushed one
